@@ -11,6 +11,7 @@ What is proved, for ALL document trees (no bound on depth or width):
 "f is the field of node n" is the uninterpreted relation `is_field_of` established by the contract of Field::try_from_node.
 """
 from __future__ import annotations
+import os
 from ..core import Unit
 from ..splice import Out, AnchorLost, splice_fn, emit_verbatim
 from .gen import Gen, SRC, sections, spec_section
@@ -30,6 +31,18 @@ BROADCAST = '    broadcast use {crate::roxmltree::kid_lower, lemma_appended_tran
 def reveal(*lits):
     return '    proof { ' + ' '.join(f'reveal_strlit("{l}");' for l in lits) + ' }'
 
+
+GROUPS_HINT = '''
+        proof {
+            broadcast use crate::roxmltree::anc_chain;
+            assert(groups@.as_ref().unref() =~= groups@);
+            lemma_groups(node, groups@);
+        }
+'''
+
+FLAGS_HINT = '''
+        proof { lemma_flags(node, groups@, parent_is_vec, parent_is_optional, in_choice); }
+'''
 
 UNIQ_EXT = '''
         let ghost start = base_fields@;
@@ -61,25 +74,33 @@ class UnitX(Unit):
         G = Gen(repo)
         out.spec('#![feature(allocator_api)]\n#![feature(pattern)]\n#![allow(unused_imports)]\n' + HEAD)
         self._trusted = prelude(out, ['ax-rc', 'ax-string-eq', 'ax-str-ext', 'ax-display-ref', 'ax-hash-string', 'ax-split-once', 'stdspec-contains',
-                                      'stdspec-as-deref', 'stdspec-option-combinators', 'stdspec-split-once', 'stdspec-string-eq-str'])
+                                      'stdspec-as-deref', 'stdspec-option-combinators', 'stdspec-split-once', 'stdspec-string-eq-str', 'stdspec-starts-with',
+                                      'stdspec-slice-iter', 'ax-slice-iter'])
         self._trusted += sections(out, 'dep_io.rs', ['io-write-ghost'])
         self._trusted += sections(out, 'dep_misc.rs', ['inflector', 'url', 'roxmltree-node'])
         out.spec(MOD_HEAD.replace('broadcast use crate::ax::display_ref;',
                                   'broadcast use {crate::ax::display_ref, crate::ax::rc_clone_eq, crate::ax::string_peq, crate::ax::str_ext, '
                                   'crate::ax::string_key_model, crate::ax::string_of_view, crate::ax::view_string_of, crate::ax::borrowed_string_key, crate::ax::borrowed_string_value, '
-                                  'crate::ax::split_once_char, vstd::std_specs::hash::group_hash_axioms};\n'
+                                  'crate::ax::split_once_char, crate::ax::iter_seq_is_remaining, vstd::std_specs::hash::group_hash_axioms};\n'
                                   '    use crate::stdspec::{peq, split_once_spec};\n    use crate::ax::string_of;\n'
-                                  '    use crate::roxmltree::{Node, all_kids, attr, tag, is_elem, parent_of, elem_kids, height, element_children};'))
+                                  '    use crate::roxmltree::{Node, anc, all_kids, attr, tag, is_elem, parent_of, elem_kids, height, element_children};'))
         w = UnitW()
         w._trusted = []
         w.emit_types(out, G)
         self._trusted += w._trusted
         out.spec(spec_section('F_spec.rs', 'qname-spec'))
+        with_field = os.environ.get('VERIF_X_FIELD', '1') != '0'
+        out.spec(spec_section('X_spec.rs', 'field-flags-spec' if with_field else 'field-relation-uninterp'))
         out.spec(spec_section('X_spec.rs', 'flatten-spec'))
         G.verbatim(out, 'model/mod.rs', 'trait', 'TryFromNode')
-        self._trusted += sections(out, 'X_glue.rs', ['field-try-from-node', 'callees', 'field-clone'])
-        self._trusted.append('assumed on zeep code: RustDocument::find_type_by_xml_name is a function of its arguments (type_lookup); '
-                             'Field::try_from_node is only named (uninterpreted relation is_field_of)')
+        if with_field:
+            self._trusted += sections(out, 'X_glue.rs', ['field-callees', 'callees', 'field-clone'])
+            self.emit_field(out, G, probe)
+            self._trusted.append('assumed on zeep code: RustDocument::find_type_by_xml_name is a function of its arguments (type_lookup)')
+        else:
+            self._trusted += sections(out, 'X_glue.rs', ['field-try-from-node', 'callees', 'field-clone'])
+            self._trusted.append('assumed on zeep code: RustDocument::find_type_by_xml_name is a function of its arguments (type_lookup); '
+                                 'Field::try_from_node is only named (uninterpreted relation is_field_of)')
         out.imported.append('field::resolve_type: contract imported from unit F (body verified there, not here)')
         out.spec(spec_section('X_spec.rs', 'extension-spec'))
         rel = 'model/structures/complex.rs'
@@ -160,6 +181,38 @@ class UnitX(Unit):
                              'invariants': [('node-fixed', 'node == node0 && it.seq() == elem_kids(node)'),
                                             ('fields-so-far', 'appended(after_ext, base_fields@, cc_own(node, it.index@ as nat))')],
                              'body_prefix': BROADCAST + '\n        proof { assert(n == elem_kids(node)[it.index@ as int]); }'}})
+
+    def emit_field(self, out, G, probe):
+        rel = 'model/field.rs'
+        f = SRC + rel
+        im = G.top(rel, 'impl', r'.*TryFromNode.* for Field')
+        open_container(out, im, f)
+        for c in im.children:
+            if c.kind == 'type':
+                emit_verbatim(out, c, f)
+        fn = child(im, 'fn', 'try_from_node')
+        CH = '|n| n.tag_name().name() == "choice"'
+        splice_fn(out, fn, f, 'field::Field::try_from_node', probe=probe, specified=('take_while', 'starts_with'),
+                  ensures=[('flags-follow-the-declaration', 'res is Ok ==> is_field_of(res->Ok_0, node)')],
+                  origin={'flags-follow-the-declaration': 'property'},
+                  opaque=[{'at': 'target_namespace.clone_from(&doc.current_target_namespace)', 'call': 'target_namespace = (doc.current_target_namespace).clone()',
+                           'type': '-', 'note': CLONE_FROM_NOTE}],
+                  closures=[{'at': '|n| matches!(n.tag_name().name(), "sequence" | "choice" | "all")', 'ensures': 'b == is_grp3(*n)'},
+                            {'at': '|n| n.attribute("minOccurs") == Some("0")', 'ensures': 'b == min0(*n)'},
+                            {'at': CH, 'occurrence': 0, 'ensures': 'b == (tag(n) == "choice"@)'},
+                            {'at': CH, 'occurrence': 1, 'ensures': 'b == (tag(*n) == "choice"@)'},
+                            {'at': CH, 'occurrence': 2, 'ensures': 'b == (tag(n) == "choice"@)'},
+                            {'at': '|n: &Node| n.attribute("maxOccurs").is_some_and(|m| m != "1" && m != "0")', 'ensures': 'b == may_repeat(*n)'},
+                            {'at': '|m| m != "1" && m != "0"', 'ensures': 'b == (m@ != "1"@ && m@ != "0"@)'},
+                            {'at': '|ns| doc.find_namespace_by_abbreviation(ns)', 'ret': 'r: Option<&Rc<Namespace>>', 'ensures': 'true'},
+                            {'at': '|| WriterError::NodeNotFound(ref_name.to_string())', 'ret': 'r: WriterError', 'ensures': 'true'},
+                            {'at': '|n| n.rust_mod_name.clone()', 'ret': 'r: String', 'ensures': 'true'},
+                            {'at': '|| WriterError::attribute_missing(&node, "name")', 'ret': 'r: WriterError', 'ensures': 'true'},
+                            {'at': '|t| as_rust_type(t, doc)', 'ret': 'r: RustFieldType', 'ensures': 'true'}],
+                  inserts=[{'pos': 'body_start', 'text': reveal('attribute', 'sequence', 'choice', 'all', 'minOccurs', 'maxOccurs', 'use', 'required', '0', '1', 'any', 'ref', 'name', 'type', 'targetNamespace', 'body', 'xml')},
+                           {'at': 'let parent_is_optional', 'text': GROUPS_HINT},
+                           {'at': 'if node.tag_name().name() == "any"', 'text': FLAGS_HINT}])
+        close_container(out, im, f)
 
     def emit_complex_type(self, out, G, rel, f, probe):
         im = G.top(rel, 'impl', r'.*TryFromNode.* for ComplexProps')
